@@ -28,7 +28,9 @@ REPO = os.environ.get('VERIF_REPO', '/repo')
 WORK = os.path.join(ROOT, '.work')
 # evidence/<id>.json describes runs against /repo itself; a mutation experiment against a scratch
 # worktree (VERIF_REPO=<dir>) writes its record under .work/ so it never replaces the committed one
-EVIDENCE = (os.path.join(ROOT, 'evidence') if os.path.realpath(REPO) == os.path.realpath('/repo')
+# (VERIF_EVIDENCE_SCRATCH=1: sweeps over many seeds keep the committed record untouched as well)
+EVIDENCE = (os.path.join(ROOT, 'evidence')
+            if os.path.realpath(REPO) == os.path.realpath('/repo') and not os.environ.get('VERIF_EVIDENCE_SCRATCH')
             else os.path.join(WORK, 'evidence-scratch'))
 ALLOWED_AXIOMS = {'propext', 'Classical.choice', 'Quot.sound'}
 FORBIDDEN = re.compile(r'\bsorry\b|\badmit\b|^\s*axiom\s|native_decide|bv_decide|implemented_by|\bunsafe\s|maxHeartbeats\s+0\b')
